@@ -16,6 +16,8 @@ func init() {
 			ruleInvokeAborts(c, "C15.10")
 			ruleLockBalance(c, "C15.11")
 			ruleNoWriteAfterHandOff(c, "C15.12")
+			ruleClosePathsReachCarrier(c, "C15.13")
+			ruleGetOrCreateAtomic(c, "C15.14")
 		},
 		Explain:    "Static necessary conditions of data-race freedom and thread safety: a lockset (guarded-by) analysis of every access to every field of every struct of the package (must-locksets with defer-order simulation and interprocedural entry sets); the carrier wrappers serialise send-side and receive-side operations; happens-before-by-close for the four fields published by closing a signal; external memory written on the application's behalf (call-option targets) is written before the completion signal; the lock-order graph is acyclic and no mutex is re-acquired while it may be held; single consumer; once-guarded closes. Interleaving-independent by construction.",
 		Assume:     []string{"lock identity is struct type + field (two instances of one type are not distinguished)", "the Go memory model for mutexes, atomics and channel close", "gRPC's one-sender/one-receiver contract for application calls on one stream"},
